@@ -4,7 +4,7 @@
    `run false` / `stop_loop false` = the legacy code, kept for the refuted statements. *)
 From Coq Require Import NArith ZArith List Bool Arith.
 Import ListNotations.
-Require Import UV.C04.Model UV.C04.Proofs UV.C04.ProofsLazy UV.C04.ProofsLive UV.C04.Compose UV.C04.ProofsDecode UV.C04.ProofsMulti UV.C04.ProofsDark.
+Require Import UV.C04.Model UV.C04.Proofs UV.C04.ProofsLazy UV.C04.ProofsLive UV.C04.Compose UV.C04.ProofsDecode UV.C04.ProofsMulti UV.C04.ProofsDark UV.C04.Later.
 
 (* One thread stores the records `recs` (store by store, switching / re-using / growing / shrinking
    its ring of buffers; `start true`: beginning with its set-up by the first hook call, prepare_shmem_buffer);
@@ -224,3 +224,16 @@ Theorem C04_crashed_trace_with_events_is_complete : forall setup cap ops evs sch
   match_recs (add_events evs (eager [] ops)) (file (finish s)) = true.
 Proof. exact crashed_trace_with_events_is_complete. Qed.
 Print Assumptions C04_crashed_trace_with_events_is_complete.
+
+(* MONOTONE IN THE KILL POINT: for every setup, buffer capacity, record list and schedule, if the traced process
+   is killed later (the schedule continues with ANY further steps of producer, recorder and writer), the records
+   found whole in the data file are those found at the earlier kill point, unchanged and in order, followed by zero or
+   more further ones - still a prefix of what the thread was going to write. *)
+Theorem C04_later_kill_extends : forall setup cap recs sched more,
+  let s1 := run true cap sched (start setup recs) in
+  let s2 := run true cap (sched ++ more) (start setup recs) in
+  exists new, done s2 = done s1 ++ new
+              /\ match_recs (done s1 ++ new) (file (finish s2)) = true
+              /\ exists rest, recs = done s1 ++ new ++ rest.
+Proof. exact later_kill_extends. Qed.
+Print Assumptions C04_later_kill_extends.
